@@ -1141,4 +1141,48 @@ sys.exit(1 if bad else 0)
 """
 
 
-REFRESH_UNITS = [("ONE-READ/MetadataManager.refresh-stateless", h_refresh_stateless, ["metadata_manager:MetadataManager.refresh"])]
+def h_refresh_exact(h: H):
+    """PROPAGATE (refresh itself): the metadata returned is the one read from the file of the RESOLVED version; when that file cannot
+    be read or parsed the exception surfaces - refresh never falls back to another (older) version, which would make readers
+    and the collector work on stale metadata."""
+    c = h.ctx
+    st = Store(h)
+    st.install(h.reg)
+    mm = h.obj("MetadataManager", storage=st.obj, metadata_path="metadata", _lock=TheoryObj("rlock"))
+    log = []
+    resolvable = c.flip("a-version-is-resolvable")
+    ver, name = SInt(c.fresh_int("resolved_version")), SStr(c.fresh_str("resolved_metadata_file"))
+    h.reg.contracts["metadata_manager:MetadataManager._current_version_info"] = lambda I, fv, a, k: log.append(("resolve",)) or ((ver, name) if resolvable else None)
+
+    def recover(I, fv, a, k):
+        log.append(("recover",))
+        return (SInt(I.ctx.fresh_int("older_version")), SStr(I.ctx.fresh_str("older_file"))) if I.ctx.flip("older-version-exists") else None
+    h.reg.contracts["metadata_manager:MetadataManager._recover_version_from_files"] = recover
+    md = SObj("TableMetadata", {}, label="metadata-of-the-resolved-version")
+    damage = {}
+
+    def read_md(I, fv, a, k):
+        log.append(("read", a[-1]))
+        k2 = I.ctx.choose(3, "metadata-file")
+        if k2 == 0 or len([x for x in log if x[0] == "read"]) > 1:
+            return md if len([x for x in log if x[0] == "read"]) == 1 else SObj("TableMetadata", {}, label="some-OTHER-version")
+        damage["exc"] = SExc(["ValueError", "OSError"][k2 - 1], origin="metadata file unreadable / unparseable", fields={"damage": True})
+        raise PyRaise(damage["exc"])
+    h.reg.contracts["metadata_manager:MetadataManager._read_metadata_file"] = read_md
+    out, val = h.run("metadata_manager:MetadataManager.refresh", [mm])
+    reads = [x for x in log if x[0] == "read"]
+    if not resolvable:
+        h.ensure("PROPAGATE:refresh-returns-None-only-when-no-version-is-resolvable", out == "ok" and val is None and not reads)
+        return
+    h.ensure("PROPAGATE:refresh-reads-exactly-the-file-of-the-resolved-version",
+             len(reads) >= 1 and z3.is_true(z3.simplify(pyops.str_z(reads[0][1]) == z3.Concat(z3.StringVal("metadata/"), name.z))))
+    if "exc" in damage:
+        h.ensure("PROPAGATE:an-unreadable-current-metadata-file-surfaces(never-an-older-version-instead)",
+                 out == "raise" and (val is damage["exc"] or val.cause is damage["exc"]), detail=repr(val))
+    else:
+        h.ensure("PROPAGATE:refresh-returns-the-metadata-read-from-that-file", out == "ok" and val is md)
+    h.ensure("PROPAGATE:refresh-does-not-re-resolve-or-scan-on-its-own", len(reads) == 1 and ("recover",) not in log and log.count(("resolve",)) == 1)
+
+
+REFRESH_UNITS = [("ONE-READ/MetadataManager.refresh-stateless", h_refresh_stateless, ["metadata_manager:MetadataManager.refresh"]),
+                 ("PROPAGATE/MetadataManager.refresh-exact", h_refresh_exact, ["metadata_manager:MetadataManager.refresh"])]
